@@ -178,6 +178,25 @@ def untarEntry (g : Bool) (dir : Bytes) (fs : FS) (e : TEntry) : Except XErr FS 
 def untarDir (g : Bool) (dir : Bytes) (fs : FS) (es : List TEntry) : FS × Option (Nat × XErr) :=
   runEntries (untarEntry g dir) fs es 0
 
+/-! ### `dock.writeFirstFileAs` (`Cont.CopyOutFile`) -/
+
+inductive FFRes where
+  | ok (fs : FS)
+  | osErr
+  | notFound
+deriving DecidableEq, Repr
+
+/-- `writeFirstFileAs(r, file)`: the content of the first regular-file entry goes to
+    `file` itself, whatever name the entry carries; other entries are skipped -/
+def firstFileAs (fs : FS) (dest : Bytes) : List TEntry → FFRes
+  | [] => .notFound
+  | e :: rest =>
+    if e.kind = .reg then
+      match createKeep fs (clean dest).segs e.perm e.content with
+      | some fs' => .ok fs'
+      | none => .osErr
+    else firstFileAs fs dest rest
+
 /-! ### the library's own producers -/
 
 /-- a directory tree as `filepath.Walk` meets it: relative segment list -> node,
